@@ -5,8 +5,8 @@
 #include <stdint.h>
 #include <string.h>
 
-enum { GV_NOISE = 0, GV_FLAT, GV_GRAD, GV_EXTREME, GV_EDGES, GV_SCREEN, GV_MOTION, GV_LOPSIDED, GV_PAN, GV_FASTPAN, GV_NKINDS };
-static const char *gv_names[] = {"noise", "flat", "grad", "extreme", "edges", "screen", "motion", "lopsided", "pan", "fastpan"};
+enum { GV_NOISE = 0, GV_FLAT, GV_GRAD, GV_EXTREME, GV_EDGES, GV_SCREEN, GV_MOTION, GV_LOPSIDED, GV_PAN, GV_FASTPAN, GV_DESKTOP, GV_NKINDS };
+static const char *gv_names[] = {"noise", "flat", "grad", "extreme", "edges", "screen", "motion", "lopsided", "pan", "fastpan", "desktop"};
 
 static inline int gv_kind(const char *s) {
     for (int i = 0; i < GV_NKINDS; i++)
@@ -113,6 +113,32 @@ static inline uint16_t gv_sample(int kind, uint32_t seed, int bits, int k, int p
         int g  = gv_isin((sx * 3 + sy * 2) & 255) * 30 / 127;
         int n  = (int)(gv_hash(seed, (uint32_t)k * 3u + (uint32_t)p, (uint32_t)x, (uint32_t)y) & 3u);
         v      = ((t * 5) / 8 + 40 + g + n) * (1 << (bits - 8));
+        break;
+    }
+    case GV_DESKTOP: { /* screen content made of 16x16 tiles scrolling 4 lines per frame: about a third two-colour "text" tiles
+                        * (they make the screen-content detector fire), the rest with a skewed distribution of close values
+                        * (noisy background cluster, sparse bright strokes, rare mid tones): blocks for which the palette
+                        * search has to run k-means, with many near-ties; chroma is flat */
+        if (p) {
+            v = 128 * (1 << (bits - 8));
+            break;
+        }
+        int      Y    = y + 4 * k;
+        uint32_t cell = gv_hash(seed, 311u, (uint32_t)x >> 4, (uint32_t)Y >> 4);
+        static const int bgs[4] = {16, 24, 40, 235};
+        static const int fgs[3] = {200, 220, 240};
+        int      bg = bgs[cell & 3u], fg = bg > 128 ? 255 - bg : fgs[(cell >> 2) % 3u];
+        uint32_t r  = gv_hash(seed ^ 0x5bd1e995u, cell, (uint32_t)x, (uint32_t)Y);
+        int      v8;
+        if ((cell >> 8) % 100u < 35u)
+            v8 = (((x * 7 + Y * 3) % 11 < 3) && (r % 10u < 8u)) ? fg : bg;
+        else {
+            uint32_t q = r % 100u;
+            if (q < 80u) v8 = bg + (int)((r >> 8) % 6u);
+            else if (q < 95u) v8 = fg - (int)((r >> 8) % 4u);
+            else v8 = (bg + fg) / 2 + (int)((r >> 8) % 5u) - 2;
+        }
+        v = v8 * (1 << (bits - 8));
         break;
     }
     default: { /* GV_MOTION: textured background translating + noise, exercises inter tools */
